@@ -43,6 +43,13 @@ def extract(facts, tname):
             if _noop(s):
                 continue
             se = _stmt_expr(s)
+            if se is None and s.get("k") == "let" and (s.get("pat") or {}).get("k") == "pident" and isinstance(s.get("init"), dict) and s.get("else") is None:
+                # a loop-local name: a scalar, or an alias `let buf = &mut self.output_buffers[chan]` of a place (uses of the alias are uses of the place)
+                init = s["init"]
+                if init.get("k") == "ref":
+                    init = init["e"]
+                inner_st.locals[s["pat"]["name"]] = sx.eval(init, inner_st)
+                continue
             if se is None:
                 raise AnchorMissing("%s: unexpected statement in channel loop line %s" % (tname, s.get("ln")))
             if se.get("k") == "for":
